@@ -69,12 +69,7 @@ type c08Result struct {
 }
 
 func runC08(t *testing.T, libIsClient bool, idx int, r *vc.Rand) (name string, res c08Result) {
-	defer func() {
-		if p := recover(); p != nil {
-			res.BubbleErr = fmt.Sprint(p)
-		}
-	}()
-	synctest.Test(t, func(t *testing.T) {
+	res.BubbleErr = simkit.Bubble(t, func(t *testing.T) {
 		c1, c2 := net.Pipe()
 		fc := &FaultConn{Conn: c1}
 		conn, peer, err := Connect(libIsClient, fc, c2)
@@ -132,6 +127,9 @@ func runC08(t *testing.T, libIsClient bool, idx int, r *vc.Rand) (name string, r
 		time.Sleep(2 * time.Hour)
 		synctest.Wait()
 	})
+	if res.BubbleErr == simkit.RaceOrFailNow {
+		res.BubbleErr = "" // the race report is in the GORACE log; the scenario itself is evaluated as usual
+	}
 	return name, res
 }
 
